@@ -7,6 +7,8 @@ E1_NOTE = ("trusted: rustc, the reference bit-slice decoder (DESIGN.md App. A la
            "vectors), the structural assumption that readers are fixed-width and dispatch depends on DF/TC/subtype/BDS id only (probed by bit-walks)")
 
 CLAIMS = {
+ "C01": dict(cat="exploration", tech="exhaustive enumeration (all byte strings of length 0..=3, 32 DF x lengths x contexts x bit-walk, the union lattice of C02-C11, all ordered pairs of a CPR report alphabet, 3-frame tracker histories x receiver/range alphabet) with every operation under catch_unwind, an allocation meter and a stall watchdog",
+             text="totality monitor over the union of all decoder lattices plus the complete space of short byte strings; panics, stalls and allocation above 4 KiB per decode are violations", ref="3 C01", note=E1_NOTE + "; the global-allocator meter counts bytes requested per decode on the calling thread"),
  "C02": dict(cat="exploration", tech="exhaustive enumeration of 32 DF codes x buffer lengths 0..=32 x contexts x garbage tails and of every dispatch leaf (bit-walk, field sweeps) on the real decoder vs reference acceptance predicate; exact-vs-extended differential",
              text="acceptance set, length discipline and tail-independence decided on every format code, every length and every dispatch leaf under a context alphabet; payload bits beyond the alphabet are not enumerated", ref="3 C02", note=E1_NOTE),
  "C03": dict(cat="model_checking", tech="explicit-state enumeration of the checksum automaton's complete transition relation (2^24 remainders x 256 bytes, thorough; states reachable in two bytes, quick) on the real function via hook vs bit-serial division; exhaustive error-pattern enumeration (weight<=5, bursts<=24); Frame.crc on every dispatch leaf",
@@ -27,6 +29,10 @@ CLAIMS = {
              text="complete over the identity field and the subtype/emergency fields in every carrier", ref="3 C09", note=E1_NOTE),
  "C10": dict(cat="exploration", tech="exhaustive bounded enumeration of the payload lattice (every value of every field, bit-walk, boundary pairs, contexts) per TC/subtype/BDS leaf under DF17/18/20/21 on the real decoder vs DO-260B field tables",
              text="every interpreted payload field complete over its domain (<=13 bits quick, <=17 bits thorough) under the context alphabet; dispatch by TC/subtype checked on every case", ref="3 C10", note=E1_NOTE),
+}
+
+ "C11": dict(cat="exploration", tech="exhaustive enumeration of the renderer's branch space through the E1 lattice (every leaf, every field value, every enum word) on the real Display impl vs reference templates filled from the decoded values",
+             text="every renderer branch condition driven to both sides and every enum word enumerated; rendering compared line by line with an independent template instantiated from the frame's own decoded values; reference validated on the 44 pinned strings of the repository", ref="3 C11", note=E1_NOTE + "; templates without a pinned string are golden from the pinned tree"),
 }
 
 NOT_YET = {
